@@ -465,6 +465,22 @@ func (c *FnCtx) autoCandidates(li *loopInfo, st *State, cond Term, mode string) 
 			for _, k := range sk {
 				cs = append(cs, cnd{fmt.Sprintf("%s:%s<=idx", bc.name, k), implies(and(app("<=", "0", bc.skolems[k].S), app("<=", bc.skolems[k].S, phi.S)), bt)})
 			}
+			// nested range loops: the enclosing loop is at the outer skolem, the inner index has passed the inner skolem
+			for _, lo := range c.loopOrd {
+				if lo == li || !lo.blocks[li.header] || lo.rangeIx == nil || c.regs[lo.rangeIx] == nil {
+					continue
+				}
+				po := c.regs[lo.rangeIx]
+				for _, k1 := range sk {
+					for _, k2 := range sk {
+						if k1 == k2 {
+							continue
+						}
+						g := and(eq(bc.skolems[k1].S, app("+", po.S, "1")), app("<=", "0", bc.skolems[k2].S), app("<=", bc.skolems[k2].S, phi.S))
+						cs = append(cs, cnd{fmt.Sprintf("%s:%s@L%d,%s<=idx", bc.name, k1, lo.ordinal, k2), implies(g, bt)})
+					}
+				}
+			}
 		}
 	}
 	addFlagCands(s.ens)
@@ -613,7 +629,7 @@ func (c *FnCtx) checkFrame(st *State, where string) {
 	}
 	sort.Strings(ks)
 	for _, k := range ks {
-		if allowed[k] {
+		if allowed[k] || strings.HasPrefix(k, "IT|") {
 			continue
 		}
 		init := c.heapGet(&State{heaps: map[string]Term{}}, k, c.heapSort[k])
